@@ -302,6 +302,18 @@ impl FetchState {
     {
         match refs_at {
             Some(refs_at) => {
+                // N.b. keep a single announced `Oid` per remote (the last one
+                // wins) and ignore blocked remotes, so that exactly one
+                // `rad/sigrefs` update is attempted per fetched namespace
+                // and it targets the object that is verified below.
+                let refs_at = refs_at
+                    .into_iter()
+                    .filter(|r| !handle.is_blocked(&r.remote))
+                    .map(|RefsAt { remote, at }| (remote, at))
+                    .collect::<BTreeMap<_, _>>()
+                    .into_iter()
+                    .map(|(remote, at)| RefsAt { remote, at })
+                    .collect::<Vec<_>>();
                 let sigrefs_at = stage::SigrefsAt {
                     remote,
                     delegates: delegates.clone(),
